@@ -18,9 +18,9 @@ REQUIRED = ["sql_refused_loading", "sql_refused_failed", "fragment_refused_loadi
             "auto_meets_dead_peer", "readyz_200", "readyz_503", "readyz_503_draining",
             "env:LoadDone", "env:LoadFail", "env:Resolve", "env:Tick", "env:ProbeUp", "env:ProbeDown", "env:PeerDies", "env:Drain"]
 SIZES = {
-    "quick": dict(eps=EPS, sizes_mc=[0, 1], sizes_mut=[1], sizes_emit=[0, 1, 48], mutants=MUTANTS, per_state=4, walks=60, walk_depth=16, jobs=6),
+    "quick": dict(eps=EPS, sizes_mc=[0, 1], sizes_mut=[1], sizes_emit=[0, 1, 48], mutants=MUTANTS, per_state=4, walks=60, walk_depth=16, jobs=6, probing=60),
     "thorough": dict(eps=EPS, sizes_mc=[0, 1, 48, 4097], sizes_mut=[0, 1], sizes_emit=[0, 1, 48, 4097], mutants=MUTANTS, per_state=60, walks=1500,
-                     walk_depth=24, jobs=8, npeers_mc=3),
+                     walk_depth=24, jobs=8, npeers_mc=3, probing=400, states3=1500, per_state3=14),
 }
 WHAT = "C35 front door"
 
